@@ -96,13 +96,14 @@ def correspondence(ctx, violations, known_hits):
     profiles = ("debug",)
     r = dbgcommon.run_dbg_cases(ctx, cases, tags, violations, profiles, aux=AUX,
                                 note="model: assembly shows the slice of the parser's span for that address (C17_assembly); labels resolve to origin + line - 1 (C17_label)")
+    real = dbgcommon.cli_cross(ctx, specs, violations, limit=(30 if ctx.tier == "quick" else 600))
     ctx.cleanup()
     return dbgcommon.coverage(r,
         "fixed programs (first statement at byte 0 without operands, operand-less after operand-ful, .stringz/.blkw/.fill incl. empty "
         "string, labels with and without colon, commas and comments between operands, operands on following lines, CRLF and tabs, "
         "multi-byte characters in comments and strings, origins x3000/x4000/x9000, .break and .orig interleaved, upper case) and "
         "random programs in random layouts: `assembly` for every address from origin-1 past the end, and for every label: print, "
-        "assembly, goto + registers, label+1, label-1; compared: every output line and the machine", profiles)
+        "assembly, goto + registers, label+1, label-1; compared: every output line and the machine", profiles, real_binary_without_hooks=real)
 
 
 def replay(ctx, payload):
